@@ -59,6 +59,9 @@ def entries(tier):
   return es
 
 
+UNBOUNDED = 10 ** 9
+
+
 def sweep(chk):
   """piter / pmap / MultiplexIterator vs the sequential evaluation under random schedules."""
   import collections
@@ -77,6 +80,10 @@ def sweep(chk):
     stop_after = rnd.choice([None, None, 0, 1, 2])
     fail_at = rnd.choice([None, None, None, 1, 2])
     seed = chk.seed * 7919 + i
+    # inputs that never end by themselves: the helper threads only finish if stopping / failing the stream stops them
+    will_fail = bool(fail_at and lens and fail_at <= lens[0])
+    if rnd.random() < 0.4 and ((api == 'multiplex' and stop_after is not None) or (will_fail and n_inputs > 1)):
+      lens = [n if (k == 0 and will_fail) else UNBOUNDED for k, n in enumerate(lens)]
     res = _run_api(api, par, lens, buf, stop_after, fail_at, seed)
     chk.replayed()
     if res:
@@ -151,14 +158,18 @@ def _run_api(api, par, lens, buf, stop_after, fail_at, seed):
   if failure is not None:
     how = 'early-stop' if stop_after is not None else ('failure' if expect_fail else 'plain')
     stage = 'two-stage' if (api == 'piter' and len(lens) > 1) else 'one-stage'
+    how += ':unbounded-inputs' if UNBOUNDED in lens else ''
     return (f'sweep:{type(failure).__name__}:{api}:{stage}:{how}',
             f'{failure} [{cfg} lens={lens} buf={buf} stop_after={stop_after} fail_at={fail_at}]')
-  want = collections.Counter((f'i{k}', (j + 1) * 10) for k, n in enumerate(lens) for j in range(n))
   got = collections.Counter(out['values'])
-  if out['end'] == 'exhausted' and not expect_fail and got != want:
-    return (f'sweep:multiset:{api}', f'got {sorted(got.elements())} want {sorted(want.elements())} [{cfg} lens={lens} buf={buf}]')
-  if got - want:
-    return (f'sweep:phantom-or-duplicate:{api}', f'{sorted((got - want).elements())} [{cfg} lens={lens}]')
+  if UNBOUNDED not in lens:
+    want = collections.Counter((f'i{k}', (j + 1) * 10) for k, n in enumerate(lens) for j in range(n))
+    if out['end'] == 'exhausted' and not expect_fail and got != want:
+      return (f'sweep:multiset:{api}', f'got {sorted(got.elements())} want {sorted(want.elements())} [{cfg} lens={lens} buf={buf}]')
+  phantom = [v for v, c in got.items() if c > 1 or not (isinstance(v, tuple) and len(v) == 2 and v[0] in {f'i{k}' for k in range(len(lens))}
+                                                       and v[1] % 10 == 0 and 1 <= v[1] // 10 <= lens[int(v[0][1:])])]
+  if phantom:
+    return (f'sweep:phantom-or-duplicate:{api}', f'{sorted(phantom)} [{cfg} lens={lens}]')
   if expect_fail and out['end'] == 'exhausted':
     return (f'sweep:failure-swallowed:{api}', f'input 0 fails at {fail_at} but iteration ended cleanly [{cfg} lens={lens}]')
   if out['alive']:
